@@ -34,7 +34,7 @@ def packStep (isCreate : Bool) (e : Handle) (acc : WM × PackSt × List Cb) (c :
   | .remove _ c =>
     if p.final.contains c then
       let next := closedMask w.deps (Mask.erase p.final c)
-      if next.contains c then acc
+      if next.contains c then (w, { p with final := next }, cbs)
       else (w, { p with final := next, replaced := Mask.insert p.replaced c, src := p.src.filter (·.1 != c) }, cbs)
     else acc
   | .assign _ c v =>
@@ -98,8 +98,9 @@ theorem applyPack_unfold (w : WM) (pack : List Cmd) :
         | none => (w, [])
         | some (w, initial0, sh) =>
           let r := (if isCreateCmd first then rest else pack).foldl (packStep info (isCreateCmd first) first.entity)
-            (w, { final := closedMask w.deps initial0 }, [])
-          packTail info (isCreateCmd first) first.entity (closedMask w.deps initial0) sh r.1 r.2.1 r.2.2 := by
+            (w, { final := if isCreateCmd first then closedMask w.deps initial0 else initial0 }, [])
+          packTail info (isCreateCmd first) first.entity
+            (if isCreateCmd first then closedMask w.deps initial0 else initial0) sh r.1 r.2.1 r.2.2 := by
   unfold WM.applyPack
   cases pack with
   | nil => rfl
